@@ -1124,9 +1124,11 @@ static cfg_value_t *cfg_setopt_value(cfg_t *cfg, cfg_opt_t *opt, const char *val
 				free(val->section);
 				return NULL;
 			}
+
+			/* defaults are for a new section, not for one that is re-opened */
+			if (!is_set(CFGF_DEFINIT, opt->flags))
+				cfg_init_defaults(val->section);
 		}
-		if (!is_set(CFGF_DEFINIT, opt->flags))
-			cfg_init_defaults(val->section);
 		break;
 
 	case CFGT_BOOL:
